@@ -163,7 +163,11 @@ func VH_C01_History() {
 	e := vhC01Engine(name, name2, "fail-filter")
 	other := vhC01Engine(name2)
 	tag := "tpl:" + name + " other:" + name2 + " hist:"
+	intact := true
 	for i := 0; i < h; i++ {
+		if fresh.out != keep { // looked at after every operation: the next render may put the same bytes back
+			intact = false
+		}
 		op := symChoice(11)
 		switch op {
 		case 9: // configuration changed and restored
@@ -208,11 +212,14 @@ func VH_C01_History() {
 		}
 	}
 	symTag(tag)
+	if fresh.out != keep {
+		intact = false
+	}
 	got := vhRender(e, name, ctx)
 	symCover("rendered")
 	symAssert(got == fresh, "history-independent")
 	// a result handed out earlier is a value: later renders do not change it
-	symAssert(fresh.out == keep, "earlier-result-still-intact")
+	symAssert(intact && fresh.out == keep, "earlier-result-still-intact")
 }
 
 // ---- C01.global: results that could be remembered process-wide ----------------------------------
